@@ -92,8 +92,18 @@ def check(case, rec):
     rec.note_max("max_rel_err_Rb_as_used", rel)
     kg = float(eq.grout.k)
     if rel > 1e-3:
-        raise Violation(f"equivalent R_b* {rb_eq!r} vs original {rb_orig!r} ({100 * rel:.2f} %); matched grout k = {kg}",
-                        sig={"kind": "rb_mismatch_as_used", "clamped": kg in (0.01, 7.0)})
+        # KF-C15-1 predicts exactly which wrong value is reported: the R_b* of the equivalent tube as it was CONSTRUCTED
+        # (original grout conductivity, preliminary pipe conductivity), because the delta-circuit is never refreshed
+        from ghedesigner.media import Grout, Pipe
+
+        k0 = math.log(ro / ri) / (2 * math.pi * 2 * float(r_pipe))
+        p0 = Pipe(eq.pipe.pos, ri, ro, eq.pipe.s, eq.pipe.roughness, k0, eq.pipe.rhoCp)
+        g0 = Grout(case["grout"]["k"], case["grout"]["rhoCp"])
+        stale = float(SingleUTube(bhe.m_flow_borehole, bhe.fluid, eq.b, p0, g0, bhe.soil).calc_effective_borehole_resistance())
+        is_stale = abs(rb_eq - stale) <= 1e-9 * stale
+        raise Violation(f"equivalent R_b* {rb_eq!r} vs original {rb_orig!r} ({100 * rel:.2f} %); matched grout k = {kg}; "
+                        f"R_b* of the tube as constructed = {stale!r}",
+                        sig={"kind": "rb_mismatch_as_used", "clamped": kg in (0.01, 7.0), "equals_construction_state": is_stale})
     # ... and recomputed from the final state by a fresh object
     fresh = SingleUTube(bhe.m_flow_borehole, bhe.fluid, eq.b, eq.pipe, eq.grout, bhe.soil)
     rb_fresh = float(fresh.calc_effective_borehole_resistance())
